@@ -4,6 +4,8 @@ import (
 	"bytes"
 	"encoding/json"
 	"fmt"
+	"github.com/go-kit/log"
+	"github.com/prometheus/prometheus/config"
 	"io"
 	"os"
 	"os/exec"
@@ -39,12 +41,20 @@ func c15Observe(in *c15Input) *c15Out {
 		out.Err = err.Error()
 		return out
 	}
+	// what a target IS: its shipped labels and the URL that will really be requested for it - built from the
+	// job section of the configuration AS LOADED BY THE HARNESS, not from whatever copy discovery keeps
+	jobs := map[string]*config.ScrapeConfig{}
+	if orig, err := config.Load(in.Config, false, log.NewNopLogger()); err == nil {
+		for _, jc := range orig.ScrapeConfigs {
+			jobs[jc.JobName] = jc
+		}
+	}
 	for h, t := range d.ActiveTargetsByHash() {
-		out.ByHash[h] = identity(t)
+		out.ByHash[h] = identityFor(t, jobs[t.Job])
 	}
 	for j, ts := range d.ActiveTargets() {
 		for _, t := range ts {
-			out.PerJob[j] = append(out.PerJob[j], hashID{t.ShardTarget.Hash, identity(t)})
+			out.PerJob[j] = append(out.PerJob[j], hashID{t.ShardTarget.Hash, identityFor(t, jobs[j])})
 		}
 	}
 	for j, ts := range d.DropTargets() {
@@ -183,11 +193,21 @@ func runC15(w *core.WorkerCtx, idx int) *core.CaseResult {
 	r := core.NewRng(w.Seed, 0xC15, uint64(idx))
 	res := &core.CaseResult{}
 	spec := cfggen.Gen(r, true)
-	text := cfggen.Render(spec, cfggen.Style{Indent: 2})
 	groups := map[string][]TG{}
 	for _, j := range spec.Jobs {
 		groups[j.Name] = GenGroups(r, j.Name)
 	}
+	if r.Intn(3) == 0 {
+		// two jobs whose targets end up with identical labels (the discovery data sets the job label) and whose
+		// URLs differ only in a LATER value of a multi-valued param (federation match[]): different targets
+		for i, last := range []string{`{__name__=~"job:.*"}`, `{__name__=~"node:.*"}`} {
+			j := cfggen.Job{Name: fmt.Sprintf("fed%d", i), MetricsPath: "/federate", Params: map[string][]string{"match[]": {`{job="prometheus"}`, last}},
+				SDs: []cfggen.SD{{Kind: "static", Targets: []string{"unused.example:1"}}}}
+			spec.Jobs = append(spec.Jobs, j)
+			groups[j.Name] = []TG{{Source: "fed/0", Targets: []map[string]string{{"__address__": "fed.example:9090", "job": "fed"}, {"__address__": "fed2.example:9090", "job": "fed"}}}}
+		}
+	}
+	text := cfggen.Render(spec, cfggen.Style{Indent: 2})
 	base := c15Observe(&c15Input{Config: text, Groups: groups, Rounds: 1})
 	if base.Err != "" {
 		res.Inconcl = "discovery set-up failed: " + base.Err
